@@ -874,6 +874,78 @@ impl Run {
     }
 }
 
+/// Histories on instances configured with fallback prefixes (implementation-side oracle only; the
+/// model's histories use the fixed configuration `env`): a small pool in which the same short name
+/// exists under the exact name and under one or two prefixes, some with byte-identical sources, as
+/// plain templates, parents, include targets and component providers. After every successful call
+/// the instance must behave like a fresh instance given the resulting (name, source) set in one
+/// batch; after every failing call like before the call.
+fn prefix_histories(meta: &mut Meta, rng: &mut Rng, thorough: bool) {
+    let prefixes: Vec<String> = vec!["p/".to_string(), "q/".to_string()];
+    let v1 = "v1 {% block y %}one{% endblock %}";
+    let v2 = "v2 {% block y %}two{% endblock %}";
+    let pool: Vec<(&str, &str)> = vec![
+        ("base", v1), ("p/base", v1), ("q/base", v1), ("p/base", v2), ("base", v2), ("q/base", v2),
+        ("page", "{% extends \"base\" %}{% block y %}pg {{ super() }}{% endblock %}"),
+        ("p/page", "{% extends \"base\" %}{% block y %}ppg {{ super() }}{% endblock %}"),
+        ("inc", "[{% include \"base\" %}]"),
+        ("lib", "{% component c(x) %}L{{ x }}{% endcomponent c %}"),
+        ("p/lib", "{% component c(x) %}L{{ x }}{% endcomponent c %}"),
+        ("q/lib", "{% component c(x) %}Q{{ x }}{% endcomponent c %}"),
+        ("use", "{{ <c x={1}/> }}"),
+        ("bad", "{{ 1 | nosuchfilter }}"),
+        ("orphan", "{% extends \"nowhere\" %}"),
+    ];
+    let build = |set: &std::collections::BTreeMap<String, String>, shuffled: bool, rng: &mut Rng| -> Option<Vec<String>> {
+        let mut t = Tera::default();
+        t.set_fallback_prefixes(prefixes.clone()).ok()?;
+        let mut items: Vec<(String, String)> = set.iter().map(|(a, b)| (a.clone(), b.clone())).collect();
+        if shuffled {
+            for i in (1..items.len()).rev() { let j = rng.below(i + 1); items.swap(i, j); }
+        }
+        match guarded(|| t.add_raw_templates(items.clone())) { Outcome::Ok(()) => Some(observe(&t)), _ => None }
+    };
+    let n_hist = if thorough { 4000 } else { 500 };
+    for h in 0..n_hist {
+        let mut t = Tera::default();
+        t.set_fallback_prefixes(prefixes.clone()).expect("prefixes");
+        let mut set: std::collections::BTreeMap<String, String> = Default::default();
+        let len = 2 + rng.below(5);
+        let mut calls: Vec<Vec<(String, String)>> = Vec::new();
+        for _ in 0..len {
+            let k = 1 + rng.below(if h % 3 == 0 { 1 } else { 3 });
+            let batch: Vec<(String, String)> = (0..k).map(|_| { let (n, s) = pool[rng.below(pool.len())]; (n.to_string(), s.to_string()) }).collect();
+            calls.push(batch.clone());
+            let before = observe(&t);
+            let r = guarded(|| t.add_raw_templates(batch.clone()));
+            meta.oracle_checks += 1;
+            let input = || json!({"prefixes": prefixes, "calls": calls});
+            match r {
+                Outcome::Ok(()) => {
+                    for (n, s) in &batch { set.insert(n.clone(), s.clone()); }
+                    let now = observe(&t);
+                    for shuffled in [false, true] {
+                        match build(&set, shuffled, rng) {
+                            Some(fresh) if fresh == now => {}
+                            Some(fresh) => { meta.oracle_fail("with fallback prefixes: after a successful add the instance differs from a fresh instance given the resulting set in one batch", None,
+                                json!({"history": input(), "first_difference": first_diff(&now, &fresh)})); return; }
+                            None => { meta.oracle_fail("with fallback prefixes: a set reached by successful adds is rejected by a fresh instance", None, json!({"history": input()})); return; }
+                        }
+                    }
+                }
+                Outcome::Err(..) => {
+                    let now = observe(&t);
+                    if now != before {
+                        meta.oracle_fail("with fallback prefixes: a failing add changed the instance", None, json!({"history": input(), "first_difference": first_diff(&before, &now)}));
+                        return;
+                    }
+                }
+                Outcome::Panic(m) => { meta.oracle_fail(&format!("panic in add_raw_templates: {m}"), None, json!({"history": input()})); return; }
+            }
+        }
+    }
+}
+
 fn main() {
     if std::env::args().nth(1).as_deref() == Some("observe-child") {
         observe_child_main();
@@ -1209,6 +1281,7 @@ fn main() {
     meta.extra.insert("successful_glob_calls".into(), json!(glob_calls_ok));
     meta.extra.insert("failing_glob_calls_by_kind".into(), json!(glob_calls_err));
     meta.extra.insert("reload_probes_after_failing_calls".into(), json!(reload_probes));
+    prefix_histories(&mut meta, &mut rng, thorough);
     meta.families.push(sink.finish());
     meta.families.push(gsink.finish());
     let _ = std::env::set_current_dir(&args.out);
